@@ -26,6 +26,8 @@ def dispatch (op : String) (payload : Json) : R Json :=
   | "diag_render" => C15.handleRender payload
   | "diag_scoped" => C15.handleScoped payload
   | "diag_scopes" => C15.handleScopes payload
+  | "c16_tables" => C16.handleTables payload
+  | "c16_main" => C16.handleMain payload
   | "resolve_import" => C06.handle payload
   | "import_symbols" => C06.handleSymbols payload
   | "import_spec" => C06.handleSpec payload
